@@ -13,6 +13,11 @@ import (
 // ErrOverflow is returned when the declared data length is exceeded.
 var ErrOverflow = errors.New("objfile: declared data length exceeded (overflow)")
 
+// ErrShortWrite is returned by Close when fewer bytes than declared in
+// WriteHeader were written: the object would be unreadable for canonical Git
+// and stored under the hash of a truncated object.
+var ErrShortWrite = errors.New("objfile: fewer bytes written than declared (short write)")
+
 // Writer writes and encodes data in compressed objfile format to a provided
 // io.Writer. Close should be called when finished with the Writer. Close will
 // not close the underlying io.Writer.
@@ -44,12 +49,13 @@ func NewWriter(w io.Writer, objectFormat format.ObjectFormat) *Writer {
 }
 
 // WriteHeader writes the type and the size and prepares to accept the
-// object's contents. If an invalid t is provided, plumbing.ErrInvalidType
+// object's contents. If an invalid t is provided (that includes the delta
+// types, which exist in packfiles only), plumbing.ErrInvalidType
 // is returned. If a negative size is provided, ErrNegativeSize is
 // returned. If the encoded header exceeds maxHeaderLen,
 // ErrHeaderTooLong is returned, mirroring the reader's bound.
 func (w *Writer) WriteHeader(t plumbing.ObjectType, size int64) error {
-	if !t.Valid() {
+	if !t.Valid() || t.IsDelta() {
 		return plumbing.ErrInvalidType
 	}
 	return w.writeHeader(t, t.Bytes(), size)
@@ -117,18 +123,24 @@ func (w *Writer) Hash() plumbing.Hash {
 // NewWriter.
 //
 // It returns an error, if any. Close will return the same error if called
-// multiple times.
+// multiple times. Closing a Writer that received fewer bytes than declared
+// in WriteHeader returns ErrShortWrite.
 func (w *Writer) Close() error {
 	if w.closed {
 		return w.closeErr
 	}
 
 	defer sync.PutZlibWriter(w.zlib)
+	w.closed = true
 	if err := w.zlib.Close(); err != nil {
 		w.closeErr = err
 		return err
 	}
 
-	w.closed = true
+	if w.pending > 0 {
+		w.closeErr = ErrShortWrite
+		return w.closeErr
+	}
+
 	return nil
 }
